@@ -91,11 +91,15 @@ TouchesCore(d) == \E x \in d : (x[1] = "-" /\ x[2] \in CoreG) \/ (x[1] # "-" /\ 
 
 \* observation history, kept in every mode: the (real) transaction ids for which an acknowledgement was read before the request
 \* expired, and the store requests of each target's put as last observed
-NoHist == [acked |-> {}, ptids |-> [t \in TTargets |-> {}]]
+NoHist == [acked |-> {}, ptids |-> [t \in TTargets |-> {}], answered |-> {}]
 HistAfter(e) ==
   [acked |-> IF e.e = "tick" /\ e.input.dir = "resp" /\ e.input.kind = "ack" /\ e.input.tid \notin SeqSet(e.expired)
              THEN hist.acked \cup {e.input.tid} ELSE hist.acked,
-   ptids |-> [t \in TTargets |-> IF e.proj.t[t].p_on THEN SeqSet(e.proj.t[t].p_tids) ELSE hist.ptids[t]]]
+   \* (a put call on a target that leaves no put behind - refused at once - starts from no requests at all)
+   ptids |-> [t \in TTargets |-> IF e.proj.t[t].p_on THEN SeqSet(e.proj.t[t].p_tids)
+                                  ELSE IF e.e = "api" /\ TOpOf[e.call] = "put" /\ TTargetOf[e.call] = t THEN {}
+                                  ELSE hist.ptids[t]],
+   answered |-> {c \in DOMAIN e.outcomes : e.outcomes[c] >= 1}]
 \* C08 (observational): a put call that has just been answered Ok had one of ITS OWN store requests acknowledged - the
 \* requests its target's put was last seen to hold, against the acknowledgements read so far (this line's included)
 OkWithoutOwnAck(e) ==
@@ -105,13 +109,15 @@ OkWithoutOwnAck(e) ==
      /\ ~e.proj.t[TTargetOf[c]].p_on                       \* the put is over (not: superseded by a put still running)
      /\ hist.ptids[TTargetOf[c]] \cap h.acked = {}
      /\ hist.ptids[TTargetOf[c]] # {}
-\* ... and conversely: a put call answered with a query error (timeout / error response - not the 3xx verdicts, whose early exit
-\* is KF-C08-1) although an acknowledgement of one of its own store requests was read before that request expired
+\* ... and conversely: a put call answered with a query error (timeout / error response / "no closest nodes" - not the 3xx
+\* verdicts, whose early exit is KF-C08-1) although an acknowledgement of one of its own store requests was read before that request expired
 ErrDespiteOwnAck(e) ==
   LET h == HistAfter(e) IN
   \E c \in SeqSet(e.proj.called) :
-     /\ TOpOf[c] = "put" /\ e.proj.done[c] \notin {"pending", "ok", "dropped", "CasFailed", "NotMostRecent", "ConflictRisk", "NoClosestNodes"}
+     /\ TOpOf[c] = "put" /\ e.proj.done[c] \notin {"pending", "ok", "dropped", "CasFailed", "NotMostRecent", "ConflictRisk"}
      /\ e.outcomes[c] = 1 /\ ~e.proj.t[TTargetOf[c]].p_on
+     \* "no closest nodes" is only judged on the line that answers the call (a later put on the target has requests of its own)
+     /\ (e.proj.done[c] = "NoClosestNodes" => c \notin hist.answered)
      /\ hist.ptids[TTargetOf[c]] \cap h.acked # {}
 
 \* ---- L1 readable off one observed line ----
